@@ -45,8 +45,11 @@ def eval_case(case) -> Outcome:
         # the levels the duties are assigned on are the supplied ones (an isothermal entry opened by the documented
         # phase-change span on its own side), shifted by the utility's own contribution towards the process
         exp_u = P.expanded_utilities(case)
+        switched_off = {x["name"] for x in (case.get("utilities") or []) if not x.get("active", True)} - {e["name"] for e in exp_u}
         for side, rows in (("hot", hu), ("cold", cu)):
             for u in rows:
+                if u["name"] in switched_off:
+                    out.fail("C03.inactive_utility_listed", f"{where}: {side} utility {u['name']} was supplied with active = false but is part of the ladder (duty {u['q']!r})")
                 cands = [e for e in exp_u if e["name"] == u["name"] and e["type"] in (("Hot", "Both") if side == "hot" else ("Cold", "Both"))]
                 if len(cands) != 1 or sum(1 for e in exp_u if e["name"] == u["name"]) != 1:
                     continue
